@@ -479,9 +479,48 @@ func (f *Frame) havocTargets(st *State, t *Targets, declaredInside func(types.Ob
 			vc.heapSet(st, key, vc.fresh("hv", srt))
 		}
 	}
+	// A write through a map expression of static type T can only change maps whose dynamic type is T. When a map
+	// key cannot be havocked row by row, the rows of maps of every other type are kept (typeof facts identify them).
+	mapTags := func(k string, bases []ast.Expr) ([]int, bool) {
+		var tags []int
+		for _, b := range bases {
+			if b == nil {
+				return nil, false
+			}
+			bt := f.subst(f.info().TypeOf(b))
+			if bt == nil {
+				return nil, false
+			}
+			tags = append(tags, vc.tagOf(types.Unalias(bt)))
+		}
+		for _, cm := range t.callee {
+			if cm.isMap && cm.key == k {
+				ct := cm.sp.Pkg.TypesInfo.TypeOf(cm.entry)
+				if ct == nil {
+					return nil, false
+				}
+				tags = append(tags, vc.tagOf(types.Unalias(f.subst(ct))))
+			}
+		}
+		return tags, true
+	}
+	keepOtherTypes := func(now, was Term, tags []int) {
+		r := Term{"r!", SInt}
+		var diff []Term
+		for _, tg := range tags {
+			diff = append(diff, Not(Eq(app(SInt, "typeof", r), IntLit(int64(tg)))))
+		}
+		vc.assume(st, Forall([]Term{r}, Imp(And(diff...), Eq(Select(now, r), Select(was, r))), Select(now, r)))
+	}
+	domWas := map[string]Term{}
+	domTags := map[string][]int{}
+	domUnknown := map[string]bool{}
 	for k, bases := range t.maps {
 		parts := strings.SplitN(k, "|", 2)
 		ks, vs := parts[0], parts[1]
+		if _, ok := domWas[ks]; !ok {
+			domWas[ks] = vc.mapDom(st, ks)
+		}
 		dom := vc.mapDom(st, ks)
 		val := vc.mapVal(st, ks, vs)
 		precise := !calleeWhole[k]
@@ -494,6 +533,12 @@ func (f *Frame) havocTargets(st *State, t *Targets, declaredInside func(types.Ob
 			}
 			refs = append(refs, r)
 		}
+		tags, known := mapTags(k, bases)
+		if known {
+			domTags[ks] = append(domTags[ks], tags...)
+		} else {
+			domUnknown[ks] = true
+		}
 		if precise {
 			for _, r := range refs {
 				dom = Store(dom, r, vc.fresh("hvrow", ArraySort(ks, SBool)))
@@ -503,7 +548,17 @@ func (f *Frame) havocTargets(st *State, t *Targets, declaredInside func(types.Ob
 			vc.heapSet(st, valKey(ks, vs), vc.define("val", val))
 		} else {
 			vc.heapSet(st, domKey(ks), vc.fresh("hv", dom.Sort))
-			vc.heapSet(st, valKey(ks, vs), vc.fresh("hv", val.Sort))
+			nv := vc.fresh("hv", val.Sort)
+			vc.heapSet(st, valKey(ks, vs), nv)
+			if known {
+				keepOtherTypes(nv, val, tags)
+			}
+		}
+	}
+	for ks, was := range domWas {
+		now := vc.mapDom(st, ks)
+		if now.S != was.S && !domUnknown[ks] && !strings.HasPrefix(now.S, "(store") {
+			keepOtherTypes(now, was, domTags[ks])
 		}
 	}
 	for g := range t.globals {
